@@ -120,7 +120,7 @@ class Ctx:
         v = self.real('th_' + name)
         # the model's pi is an interval approximation; rescale so range facts survive
         mp = self.values.get('__pi__')
-        if mp:
+        if mp and not self.values.get('__exact_angles__'):
             v = v * math.pi / mp
         if lo is not None and not (v > lo if lo_strict else v >= lo):
             self.pre_violations.append(f"angle {name}={v} below {lo}")
